@@ -208,12 +208,22 @@ namespace occa {
   //   include_paths : Array
 
   hash_t kernelHeaderHash(const occa::json &props) {
-    return (
-      occa::hash(props["defines"])
-      ^ props["functions"]
-      ^ props["includes"]
-      ^ props["headers"]
-    );
+    // Hash the properties as one object keyed by their names (see
+    // serial::device::kernelHash)
+    const char *names[] = {
+      "defines",
+      "functions",
+      "includes",
+      "headers"
+    };
+    occa::json keyProps;
+    keyProps.asObject();
+    for (const char *name : names) {
+      if (props.has(name)) {
+        keyProps[name] = props[name];
+      }
+    }
+    return occa::hash(keyProps);
   }
 
   std::string assembleKernelHeader(const occa::json &props) {
